@@ -47,21 +47,30 @@ def assignColors : Nat → List Span → Option (List (Span × String))
     | some c, some r => some ((l, c) :: r)
     | _, _ => none
 
-/-- `LineIndex::new`: `(start offset, text)` of every line; `'\n'` separates lines and belongs to none -/
-def lineIndexGo : Nat → List Char → List Char → List (Nat × List Char)
-  | start, acc, [] => [(start, acc.reverse)]
-  | start, acc, c :: r =>
-    if c = '\n' then (start, acc.reverse) :: lineIndexGo (start + utf8Len acc.reverse + 1) [] r
-    else lineIndexGo start (c :: acc) r
+/-- the lines of a text: `'\n'` separates lines and belongs to none (`"a\n"` has the lines `a` and the empty line) -/
+def splitLines : List Char → List (List Char)
+  | [] => [[]]
+  | c :: r =>
+    if c = '\n' then [] :: splitLines r
+    else match splitLines r with
+      | l :: ls => (c :: l) :: ls
+      | [] => [[c]]
 
-def lineIndex (src : List Char) : List (Nat × List Char) := lineIndexGo 0 [] src
+/-- the start offset of every line: each line starts one byte (the `'\n'`) after the end of the previous one -/
+def withStarts : Nat → List (List Char) → List (Nat × List Char)
+  | _, [] => []
+  | s, l :: rest => (s, l) :: withStarts (s + utf8Len l + 1) rest
+
+/-- `LineIndex::new`: `(start offset, text)` of every line.  (The code collects the offsets of the `'\n'`s with
+    `char_indices` and cuts `&s[start..end]` between them; these offsets are character boundaries by construction.) -/
+def lineIndex (src : List Char) : List (Nat × List Char) := withStarts 0 (splitLines src)
 
 /-- `LineIndex::get`: the line with `line_start ≤ offset ≤ line_start + line.len()` and its number -/
-def lineOfGo (off : Nat) : Nat → List (Nat × List Char) → Option (Nat × Nat × List Char)
+def reportLineOfGo (off : Nat) : Nat → List (Nat × List Char) → Option (Nat × Nat × List Char)
   | _, [] => none
-  | n, (st, txt) :: rest => if st ≤ off ∧ off ≤ st + utf8Len txt then some (n, st, txt) else lineOfGo off (n + 1) rest
+  | n, (st, txt) :: rest => if st ≤ off ∧ off ≤ st + utf8Len txt then some (n, st, txt) else reportLineOfGo off (n + 1) rest
 
-def lineOf (idx : List (Nat × List Char)) (off : Nat) : Option (Nat × Nat × List Char) := lineOfGo off 0 idx
+def reportLineOf (idx : List (Nat × List Char)) (off : Nat) : Option (Nat × Nat × List Char) := reportLineOfGo off 0 idx
 
 /-- a piece of source text painted in a label's colour: 0-based line number, colour, text (tabs expanded) -/
 structure Piece where
@@ -77,25 +86,32 @@ inductive PrepResult where
   | block (pieces : List Piece)
 deriving Repr, DecidableEq
 
-/-- the acceptance test of `Block::new` on the label ranges, in order (`prev` = the previous range) -/
+/-- `label.code.start <= prev.start || label.code.start < prev.end` against the previous range, if any -/
+def prevClash (prev : Option Span) (l : Span) : Bool :=
+  match prev with
+  | some p => decide (l.start ≤ p.start) || decide (l.start < p.stop)
+  | none => false
+
+/-- the acceptance test of `Block::new` on the label ranges, in order (`prev` = the previous range): every label
+    has `start ≤ end`, does not clash with the previous one, and both its ends have an index entry -/
 def blockAccepts (idx : List (Nat × List Char)) : Option Span → List Span → Bool
   | _, [] => true
   | prev, l :: rest =>
-    if l.start > l.stop then false
-    else if (match prev with | some p => l.start ≤ p.start || l.start < p.stop | none => false) then false
-    else if (lineOf idx l.start).isNone || (lineOf idx l.stop).isNone then false
-    else blockAccepts idx (some l) rest
+    decide (l.start ≤ l.stop) && !prevClash prev l && (reportLineOf idx l.start).isSome && (reportLineOf idx l.stop).isSome &&
+      blockAccepts idx (some l) rest
 
 def expandTabs (s : List Char) : List Char := s.flatMap (fun c => if c = '\t' then [' ', ' ', ' ', ' '] else [c])
 
-/-- the whole lines strictly between two line numbers -/
-def middleLines (idx : List (Nat × List Char)) (color : String) (a b : Nat) : List Piece :=
-  (List.range (b - (a + 1))).filterMap (fun k => (idx[a + 1 + k]?).map (fun p => ⟨a + 1 + k, color, expandTabs p.2⟩))
+/-- the whole lines strictly between two line numbers (`idx.0[line_no]` for `line_no in a + 1..b` is a panic site) -/
+def middleLines (idx : List (Nat × List Char)) (color : String) (a b : Nat) : Except String (List Piece) :=
+  if b ≤ idx.length then
+    .ok ((((idx.drop (a + 1)).take (b - (a + 1))).zipIdx).map (fun p => ⟨a + 1 + p.2, color, expandTabs p.1.2⟩))
+  else .error "codesnake: idx.0[line_no]"
 
 /-- the painted pieces of one accepted label; `none` = a slice would panic -/
 def labelPieces (src : List Char) (idx : List (Nat × List Char)) (l : Span) (color : String) :
     Except String (List Piece) :=
-  match lineOf idx l.start, lineOf idx l.stop with
+  match reportLineOf idx l.start, reportLineOf idx l.stop with
   | some (n1, st1, t1), some (n2, st2, _) =>
     if n1 > n2 then .error "codesnake: debug_assert start.line_no <= end.line_no"
     else if n1 = n2 then
@@ -103,9 +119,10 @@ def labelPieces (src : List Char) (idx : List (Nat × List Char)) (l : Span) (co
       | some t => .ok [⟨n1, color, expandTabs t⟩]
       | none => .error "codesnake: slice of a line at label offsets"
     else
-      match sliceBytes src l.start (st1 + utf8Len t1), sliceBytes src st2 l.stop with
-      | some a, some b => .ok (⟨n1, color, expandTabs a⟩ :: (middleLines idx color n1 n2 ++ [⟨n2, color, expandTabs b⟩]))
-      | _, _ => .error "codesnake: slice of a line at label offsets"
+      match sliceBytes src l.start (st1 + utf8Len t1), sliceBytes src st2 l.stop, middleLines idx color n1 n2 with
+      | some a, some b, .ok mid => .ok (⟨n1, color, expandTabs a⟩ :: (mid ++ [⟨n2, color, expandTabs b⟩]))
+      | _, _, .error e => .error e
+      | _, _, _ => .error "codesnake: slice of a line at label offsets"
   | _, _ => .error "codesnake: index entry of an accepted label"
 
 def allPieces (src : List Char) (idx : List (Nat × List Char)) : List (Span × String) → Except String (List Piece)
